@@ -25,6 +25,10 @@ For ALL ordered segment lists, options, separation distances and solver outputs:
   `retry_distance_bounds`      exact arithmetic: the distance of every attempt is in [base/10, base];
   `retry_limits`               channel constraints survive the rewriting: within tol of its channel-edge
                                variables every free segment is within tol of its limits;
+  `first_attempt_uses_base_distance`, `pass_regions_independent`, `pass_states_reachable`
+                               the pass (`runPass`) carries nothing from one region to the next: every region's first
+                               attempt uses the ideal nudging distance, its trace depends on the region alone, and
+                               every solver call happens in a state the retry theorems cover;
   `satisfied_no_retry`         a satisfied round ends the loop with distance and constraints unchanged;
   `unify_only_free_equalities` the unifying pass only ever adds equalities (gap 0) between two different
                                variables of weight freeWeight (∀ solver answers);
@@ -222,6 +226,55 @@ theorem satisfied_no_retry (o : ROpts) (vars : List Var) (st : NState) (fps : Li
     (out : StepOut NState) (hstep : nudgeStep o vars st fps = some out) (hs : out.satisfied = true) :
     out.retry = false ∧ out.next.sepDist = st.sepDist ∧ out.next.cons = st.cons :=
   nudgeStep_satisfied o vars st fps out hstep hs
+
+/-! ### the pass: no state is carried from one region to the next -/
+
+/-- in a nudging pass (`runPass`: the loop over the regions of one dimension) the FIRST attempt of every region
+    is made with the ideal nudging distance and the constraints generated with it — whatever the regions
+    processed before it were, and whatever the solver answered for them (a region that had to reduce its
+    distance, or gave up at ~0, does not hand that distance on; seeded change C10-5 moved the declaration
+    of `sepDist` out of the per-region loop) -/
+theorem first_attempt_uses_base_distance (o : ROpts) (before after : List (List RSeg × List (List Rat)))
+    (segs : List RSeg) (answers : List (List Rat)) :
+    ∃ tail, (runPass o (before ++ (segs, answers) :: after))[before.length]? = some (initState o segs :: tail) ∧
+      (initState o segs).sepDist = o.base ∧
+      (initState o segs).cons = (regionCons o o.base segs).map (flat segs) ∧ (initState o segs).ranges = [] := by
+  have hlen : before.length < (before ++ (segs, answers) :: after).length := by simp
+  have hget : (before ++ (segs, answers) :: after)[before.length]? = some (segs, answers) := by simp
+  unfold runPass
+  rw [List.getElem?_map, hget]
+  cases answers with
+  | nil => exact ⟨[], rfl, rfl, rfl, rfl⟩
+  | cons fps rest => exact ⟨_, rfl, rfl, rfl, rfl⟩
+
+/-- the whole trace of a region depends on that region alone -/
+theorem pass_regions_independent (o : ROpts) (before before' after after' : List (List RSeg × List (List Rat)))
+    (r : List RSeg × List (List Rat)) :
+    (runPass o (before ++ r :: after))[before.length]? = (runPass o (before' ++ r :: after'))[before'.length]? := by
+  unfold runPass
+  simp [List.getElem?_map]
+
+/-- every solver call of every region of a pass happens in a state covered by the retry theorems
+    (`retry_separation`, `retry_limits`, … with the region's own start state) -/
+theorem pass_states_reachable (o : ROpts) (regions : List (List RSeg × List (List Rat))) (k : Nat)
+    (segs : List RSeg) (answers : List (List Rat)) (hk : regions[k]? = some (segs, answers)) (tr : List NState)
+    (htr : (runPass o regions)[k]? = some tr) :
+    ∀ s ∈ tr, Reach o (regionVars o segs) (initState o segs) s := by
+  unfold runPass at htr
+  rw [List.getElem?_map, hk] at htr
+  simp only [Option.map_some, Option.some.injEq] at htr
+  subst htr
+  exact regionTrace_reach o _ _ answers _ Reach.start
+
+/-- non-vacuity: a narrow region (two attempts: 10, then 9) followed by a wide one: the wide one starts at 10 -/
+example :
+    (runPass ⟨false, true, false, 0, fun _ _ => false, false, 10, id⟩
+      [([⟨3, 0, 100, 5, 0, 5, false, false, false, false, false, false, []⟩,
+         ⟨4, 50, 150, 5, 0, 5, false, false, false, false, false, false, []⟩], [[0, 0, 5, 10, 0, 10], [0, 0, 5, 9, 0, 9]]),
+       ([⟨1, 0, 100, 5, 0, 30, false, false, false, false, false, false, []⟩,
+         ⟨2, 50, 150, 5, 0, 30, false, false, false, false, false, false, []⟩], [[0, 0, 30, 10, 0, 30]])]).map
+      (fun tr => tr.map (·.sepDist)) = [[10, 9, 8], [10]] := by
+  decide +kernel
 
 /-! ### write-back -/
 
